@@ -3,6 +3,8 @@ package service
 // C11: stored snapshots and the user-visible document equal the log replay.
 
 import (
+	"encoding/json"
+
 	"github.com/orda-io/orda/client/pkg/iface"
 	"github.com/orda-io/orda/client/pkg/model"
 	"github.com/orda-io/orda/client/pkg/orda"
@@ -91,4 +93,62 @@ func VF_C11_Snapshot() {
 	vf.Assert(len(real) == 1 && real[0].Ver == e+1 && real[0].Ver >= sd.Sseq, "C11 the recorded version never decreases")
 	dt2, last2, _ := m.GetLatestDatatype()
 	vf.Assert(dt2.(orda.Counter).Get() == want+1000 && last2 == e+1, "C11 snapshot + later operations equals whole-log replay")
+}
+
+// VF_C11_Race: a background snapshot update of an earlier push overlaps a later
+// push and that push's own snapshot update (interleaving mode: context switches
+// at every database round trip).  Whatever the schedule, the versions written
+// to the user-visible document never decrease, and at quiescence the document
+// is the JSON view of the log replay up to its recorded version.
+func VF_C11_Race() {
+	vf.Preemptions(2)
+	w := vfNewWorld()
+	w.seedCollection(vfCol, 1)
+	e := uint64(2)
+	d := w.seedDatatype(vfDUID, vfKey, 1, model.TypeOfDatatype_COUNTER, e)
+	subscribe(d, vfCUIDy, e, e)
+	w.store.Operations = append(w.store.Operations,
+		schema.NewOperationDoc(vfIncOpDelta(vfCUIDy, 1, 1, "1"), vfDUID, 1, 1),
+		schema.NewOperationDoc(vfIncOpDelta(vfCUIDy, 2, 2, "10"), vfDUID, 2, 1))
+	done := make(chan int, 2)
+	// the updater spawned by the push that stored operation 2
+	first := *w.datatype(vfDUID)
+	go func() {
+		_ = snapshot.NewManager(context0(), w.mgr, &first, w.collection(1)).UpdateSnapshot()
+		done <- 1
+	}()
+	// a later push commits operation 3 and spawns its own updater
+	go func() {
+		vf.Yield()
+		w.store.Operations = append(w.store.Operations, schema.NewOperationDoc(vfIncOpDelta(vfCUIDy, 3, 3, "100"), vfDUID, 3, 1))
+		w.datatype(vfDUID).Sseq.End = 3
+		second := *w.datatype(vfDUID)
+		_ = snapshot.NewManager(context0(), w.mgr, &second, w.collection(1)).UpdateSnapshot()
+		done <- 2
+	}()
+	<-done
+	<-done
+	vf.Quiesce()
+	vf.Reach("both-updated")
+	vs := w.store.RealVersions
+	for i := 1; i < len(vs); i++ {
+		vf.Assert(vs[i] >= vs[i-1], "C11 the version recorded in the user document never decreases")
+	}
+	vf.Assert(len(vs) >= 1, "C11 at least one snapshot update completes")
+	real := w.store.Real[vfCol]
+	vf.Assert(len(real) == 1 && real[0].ID == vfKey, "C11 one user document under the datatype's key")
+	wantAt := map[uint64]int32{2: 11, 3: 111}
+	v, known := wantAt[real[0].Ver]
+	vf.Assert(known, "C11 the recorded version is a position of the log")
+	raw, _ := json.Marshal(real[0].Data)
+	var view map[string]interface{}
+	_ = json.Unmarshal(raw, &view)
+	vf.Assert(view != nil && jsonEq(view["Counter"], float64(v)), "C11 the user document is the JSON view of the replay up to its recorded version")
+	// every stored snapshot equals the replay up to its version
+	for _, sd := range w.store.Snapshots {
+		c := orda.NewClient(orda.NewLocalClientConfig(vfCol), "check").CreateCounter(vfKey, nil)
+		vf.Assert(c.(iface.Datatype).SetMetaAndSnapshot([]byte(sd.Meta), sd.Snapshot) == nil, "C11 the stored snapshot can be restored")
+		vf.Assert(c.Get() == wantAt[sd.Sseq], "C11 every stored snapshot equals the replay of the log up to its version")
+	}
+	vf.Assert(w.lockFreeName("US:1:"+vfKey), "C11 the snapshot lock is free afterwards")
 }
